@@ -152,4 +152,93 @@ pub proof fn lemma_converted_pair_consistent(seed: Seq<u8>)
     lemma_clamp_idempotent(sha512_spec(seed).subrange(0, 32));
 }
 
+pub proof fn lemma_nat_to_le_len(v: nat, n: nat)
+    ensures
+        nat_to_le(v, n).len() == n,
+    decreases n,
+{
+    if n > 0 {
+        lemma_nat_to_le_len(v / 256, (n - 1) as nat);
+    }
+}
+
+pub proof fn lemma_le_nat_of_nat_to_le(v: nat, n: nat)
+    requires
+        v < pow256(n),
+    ensures
+        le_nat(nat_to_le(v, n)) == v,
+    decreases n,
+{
+    if n == 0 {
+        assert(nat_to_le(v, 0).len() == 0);
+    } else {
+        let s = nat_to_le(v, n);
+        let t = nat_to_le(v / 256, (n - 1) as nat);
+        reveal_with_fuel(pow256, 2);
+        assert(pow256(n) == 256 * pow256((n - 1) as nat));
+        lemma_le_nat_of_nat_to_le(v / 256, (n - 1) as nat);
+        lemma_nat_to_le_len(v / 256, (n - 1) as nat);
+        assert(s =~= seq![(v % 256) as u8] + t);
+        assert(s.subrange(1, s.len() as int) =~= t);
+        assert(s[0] == (v % 256) as u8);
+    }
+}
+
+/// C06 "every honest signature verifies": a signature produced by §5.1.6 under an honestly generated key pair
+/// satisfies the §5.1.7 predicate, in both modes — a theorem over the sign/verify SPECIFICATIONS (which the code is
+/// proved against) and the group laws assumed in ext_dalek_ed.rs. The two side conditions exclude the (probability
+/// 2^-252) nonce r = 0 mod L, for which R is the identity and libsodium/RFC-strict verifiers reject, and a = 0 mod L
+/// (impossible for a clamped scalar; not proved here).
+pub proof fn lemma_honest_signature_verifies(seed: Seq<u8>, m: Seq<u8>, prehashed: bool)
+    requires
+        seed.len() == 32,
+        ed25519_secret_scalar(seed) % ed25519_l() != 0,
+        le_nat(sha512_spec(ed25519_dom(prehashed) + sha512_spec(seed).subrange(32, 64) + m)) % ed25519_l() != 0,
+    ensures
+        ed25519_verify_raw(ed25519_sign_raw(ed25519_secret_key(seed), m, prehashed), m, ed25519_public(seed), prehashed),
+{
+    broadcast use axiom_ed_compress_len, axiom_ed_decompress_compress, axiom_ed_basemul_mod_l, axiom_sha512_len;
+    let l = ed25519_l();
+    let sk = ed25519_secret_key(seed);
+    let pk = ed25519_public(seed);
+    assert(sk.subrange(0, 32) =~= seed);
+    assert(sk.subrange(32, 64) =~= pk);
+    let a = ed25519_secret_scalar(seed);
+    let dom = ed25519_dom(prehashed);
+    let r = le_nat(sha512_spec(dom + sha512_spec(seed).subrange(32, 64) + m)) % l;
+    let big_r = ed_compress(ed_basemul(r));
+    let k = le_nat(sha512_spec(dom + big_r + pk + m)) % l;
+    let s = (r + k * a) % l;
+    let sig = ed25519_sign_raw(sk, m, prehashed);
+    assert(sig == big_r + nat_to_le(s, 32));
+    lemma_nat_to_le_len(s, 32);
+    assert(sig.subrange(0, 32) =~= big_r);
+    assert(sig.subrange(32, 64) =~= nat_to_le(s, 32));
+    // S is canonical and decodes to itself
+    assert(pow256(16) == 0x1_0000_0000_0000_0000_0000_0000_0000_0000nat) by (compute_only);
+    assert(pow256(32) == pow256(16) * pow256(16)) by (compute_only);
+    assert(l < pow256(32)) by (nonlinear_arith)
+        requires
+            pow256(32) == pow256(16) * pow256(16),
+            pow256(16) == 0x1_0000_0000_0000_0000_0000_0000_0000_0000nat,
+            l == 0x1000_0000_0000_0000_0000_0000_0000_0000nat * 0x1000_0000_0000_0000_0000_0000_0000_0000nat / 16
+                + 27742317777372353535851937790883648493nat,
+    ;
+    assert(s < l) by (nonlinear_arith)
+        requires
+            s == (r + k * a) % l,
+            l > 0,
+    ;
+    lemma_le_nat_of_nat_to_le(s, 32);
+    // R = [r]B and A = [a]B decode, neither has small order
+    axiom_ed_basemul_small_order(r);
+    axiom_ed_basemul_small_order(a);
+    vstd::arithmetic::div_mod::lemma_mod_twice(le_nat(sha512_spec(dom + sha512_spec(seed).subrange(32, 64) + m)) as int, l as int);
+    // group equation: [k](-[a]B) + [s]B = -[k*a]B + ([r]B + [k*a]B) = [r]B
+    axiom_ed_mul_neg_basemul(k, a);
+    assert(ed_basemul(s) == ed_basemul(r + k * a));
+    axiom_ed_basemul_add(r, k * a);
+    axiom_ed_cancel(ed_basemul(k * a), ed_basemul(r));
+}
+
 } // verus!
